@@ -8,6 +8,10 @@ stage(ctx, st):  1. writes one case file per shard (inputs only),
                     `wellformed`, codecs rot_13-equivalent table, urllib.parse.unquote_to_bytes, and a
                     small backslash unescaper.
 
+stage_hist(ctx, st): prior-history stage: a mini-workload of every function (see gen_hist_records) is executed on a fresh
+thread right after each entry of the shared catalogue of earlier unrelated uses of phosg's helpers (harness/vf_history.hh)
+and judged here exactly like the main stage; keys <function>:prior-history:<prior family>:<law>.
+
 stage_mt(ctx, st): concurrency stage (st["variant"] = "asan" | "tsan"): small per-process record sets; the harness logs a
 single-threaded pass (judged here exactly like the main stage) and then repeats the records from 8 threads at once,
 requiring byte-identical results (compared in the harness against the judged single-threaded reference).
@@ -26,6 +30,7 @@ from concurrent.futures import ProcessPoolExecutor
 
 NSHARDS = 16
 ENC, DEC, ROT, URL, CTRL, QUOTES, DECENUM, NETLOC, SWEEP, NETHOSTS, NETENUM, TRIAL = 1, 2, 3, 4, 5, 6, 7, 8, 9, 10, 11, 12
+PRIOR = 13                          # prior-history stage: "the records that follow ran on a fresh thread after this prior"
 F_EARLY, F_ALIGN = 0x40, 0x20      # flag bits (low nibble = alphabet / mode)
 
 STD = frozenset(b"ABCDEFGHIJKLMNOPQRSTUVWXYZabcdefghijklmnopqrstuvwxyz0123456789+/")
@@ -569,12 +574,18 @@ class _Res:
         self.vcounts = {}
         self.samples = []
         self.prefix = ""
+        self.prior = None               # (name, family) while records of the prior-history stage are judged
 
     def cls(self, k, n=1):
         k = self.prefix + k
         self.classes[k] = self.classes.get(k, 0) + n
 
     def violation(self, key, what, case):
+        if self.prior is not None:
+            # judged as always; the key says that the call was made right after an unrelated earlier use of phosg's helpers
+            head, _, rest = key.partition(":")
+            key = "%s:prior-history:%s%s" % (head, self.prior[1], ":" + rest if rest else "")
+            case = "on a fresh thread after prior [%s]: %s" % (self.prior[0], case)
         key = self.prefix + key
         c = self.vcounts.get(key, 0) + 1
         self.vcounts[key] = c
@@ -680,6 +691,11 @@ def judge_shard(job):
             res.prefix = "early-call:" if flag & F_EARLY else ""    # results produced by the static initializer
             if flag & F_ALIGN:
                 res.cls("alignment-reference:%s" % {ENC: "b64enc", DEC: "b64dec", ROT: "rot13"}.get(op, "?"))
+            if op == PRIOR:                 # prior-history stage: payload = family NUL name; no observation field
+                fam, _, name = bytes(x).partition(b"\0")
+                res.prior = (name.decode(), fam.decode())
+                res.cls("prior:%s:judged-by-python" % res.prior[1])
+                continue
             if op == TRIAL:                 # cold-start stage: one status field per trial; a dead child logged nothing else
                 nrecs_t = struct.unpack_from("<H", x, 0)[0]
                 st_t, how_t = obs.field()
@@ -1136,5 +1152,141 @@ def stage_cold(ctx, st):
         r["samples"] = []
         driver.merge(merged, r)
     merged["counters"]["cold_case_records"] = sum(nrecs)
+    merged["violations"].sort(key=lambda v: (v["key"], len(v.get("case", ""))))
+    return merged
+
+
+# ------------------------------------------------------------------------------------------------
+# prior-history stage: what a C11 function returns must not depend on what the same thread did earlier with phosg's
+# shared helpers (the escapers build their output from string_printf pieces).  harness/c11.cc mode=hist runs, for every
+# prior of the shared catalogue (spread over the shards: index % nshards == shard) plus a seeded sample of two-step
+# histories: fresh thread -> prior -> every record of the shard's mini-workload, and names the priors it ran in
+# <obs>.priors.<shard>.txt; the observation log holds the fields of all passes one after the other.
+
+HIST_SHARDS = 16
+_HIST_LONG = (63, 64, 65, 100, 127, 128, 129, 255, 256, 257, 300, 1000, 5000)
+_VERBATIM = b"abcdefghijklmnopqrstuvwxyzABCDEFGHIJKLMNOPQRSTUVWXYZ0123456789"
+_CTRL_ESCAPED = bytes(c for c in range(0x20) if c not in (7, 8, 9, 10, 11, 12, 13)) + b"\x7f"   # \xHH / %HH in every mode
+
+
+def _hist_lens(shard, j):
+    """Input lengths for function number j in this shard: over the 16 shards every length 0..40 occurs for every function."""
+    v = {0, 1, 3} | {(shard + 16 * k + 5 * j) % 41 for k in range(3)} | {_HIST_LONG[(shard + j) % len(_HIST_LONG)]}
+    return sorted(v)
+
+
+def gen_hist_records(tier, seed, shard):
+    r = random.Random("c11-hist-%s-%d-%d" % (tier, seed, shard))
+    recs = []
+    j = 0
+    for flag in (0, 1):
+        for i, n in enumerate(_hist_lens(shard, j)):
+            recs.append((n, _rec(ENC, flag, _rand_bytes(r, n, i % 2))))          # encode (ptr, string) + decode back (ptr, string)
+        j += 1
+        for i, n in enumerate(_hist_lens(shard, j)):
+            enc = ref_encode(_rand_bytes(r, n, (i + 1) % 2), flag)
+            recs.append((len(enc), _rec(DEC, flag, enc)))
+            if i in (2, 4) and enc:                                              # must still throw invalid_argument
+                pos = r.randrange(len(enc))
+                bad = enc[:pos] + bytes([r.choice((0x21, 0x00, 0x80, 0x2E))]) + enc[pos + 1:] if i == 2 else enc[:-1]
+                recs.append((len(bad), _rec(DEC, flag, bad)))
+        j += 1
+    letters = b"abcdefghijklmnopqrstuvwxyzABCDEFGHIJKLMNOPQRSTUVWXYZ @[`{\xe1"
+    for i, n in enumerate(_hist_lens(shard, j)):
+        recs.append((n, _rec(ROT, 0, bytes(r.choices(letters, k=n)) if i % 2 else r.randbytes(n))))
+    j += 1
+    for op, flag in ((URL, 0), (URL, 1), (CTRL, 0), (CTRL, 1), (QUOTES, 0)):
+        lens = _hist_lens(shard, j)
+        j += 1
+        for i, n in enumerate(lens + [33, 37]):
+            style = 0 if i == len(lens) else 1 if i == len(lens) + 1 else i % 3
+            if style == 0:      # every byte needs its own \xHH / %HH piece
+                data = bytes(r.choices(_CTRL_ESCAPED if (op == CTRL and flag == 0) or i % 2 else _ALL_ESCAPED, k=n))
+            elif style == 1:    # nothing to escape
+                data = bytes(r.choices(_VERBATIM, k=n))
+            else:
+                data = _rand_bytes(r, n, 2)
+            recs.append((n, _rec(op, flag, data)))
+    hosts = [b"a", b"example.com", b"h" * 15, b"h\xc3\xb6st.\xff\x80.x" + b"y" * (shard % 8), b"my-host.sub-domain.example.org", b"h" * (250 + shard % 8)]
+    for i in range(4):
+        h = hosts[(shard + i) % len(hosts)]
+        lo = (0, 8, 98, 998, 9998, 65533)[(shard + 2 * i) % 6]
+        recs.append((len(h), _rec(NETLOC, 0, struct.pack("<II", lo, lo + 3) + h)))
+    recs.sort(key=lambda t: t[0])             # short to long; functions interleaved (stable)
+    return [b for _, b in recs]
+
+
+def _gen_hist_shard(job):
+    path, tier, seed, shard = job
+    recs = gen_hist_records(tier, seed, shard)
+    with open(path + ".tmp", "wb") as f:
+        f.write(b"C11C" + struct.pack("<I", len(recs)))
+        f.write(b"".join(recs))
+    os.replace(path + ".tmp", path)
+    return len(recs)
+
+
+def _expand_hist_cases(cases_path, priors_path, out_path):
+    """Case file of what the harness executed: for every pass it names ("family TAB prior TAB variant"), a PRIOR record
+    followed by the shard's records in the order of that variant (0: escape_url records first, 1: escape_controls /
+    escape_quotes records first; the others after them, each group in file order)."""
+    with open(cases_path, "rb") as f:
+        cd = f.read()
+    nrec = struct.unpack_from("<I", cd, 4)[0]
+    recs = []
+    p = 8
+    for _ in range(nrec):
+        op, flag, n = struct.unpack_from("<BBI", cd, p)
+        recs.append((op, cd[p:p + 6 + n]))
+        p += 6 + n
+    heads = {0: (URL,), 1: (CTRL, QUOTES)}
+    bodies = {v: b"".join(b for op, b in recs if op in h) + b"".join(b for op, b in recs if op not in h) for v, h in heads.items()}
+    try:
+        with open(priors_path, "rb") as f:
+            lines = [ln for ln in f.read().split(b"\n") if ln]
+    except OSError:
+        lines = []
+    out = []
+    for ln in lines:
+        fam, name, variant = ln.split(b"\t")
+        out.append(_rec(PRIOR, 0, fam + b"\0" + name + b" (variant %d)" % int(variant)) + bodies[int(variant)])
+    with open(out_path, "wb") as f:
+        f.write(b"C11C" + struct.pack("<I", len(lines) * (nrec + 1)) + b"".join(out))
+    return len(lines)
+
+
+def stage_hist(ctx, st):
+    from vf import driver
+    self_test()
+    nshards = HIST_SHARDS
+    tag = st.get("tag", "c11-hist")
+    workdir, tier, seed = ctx["workdir"], ctx["tier"], int(ctx["seed"])
+    cbase = os.path.join(workdir, "c11_histcases")
+    obase = os.path.join(workdir, "c11_histobs")
+    jobs = [("%s.%d.bin" % (cbase, s), tier, seed, s) for s in range(nshards)]
+    nrecs = [_gen_hist_shard(j) for j in jobs]
+    merged = driver.run_harness_stage(ctx, {"name": "c11", "variant": "asan", "shards": (nshards, nshards), "tag": tag,
+                                            "args": ["mode=hist", "cases=" + cbase, "obs=" + obase], "timeout": (600, 3600)})
+    died = bool(merged["violations"]) or ctx.get("only_shard") is not None
+    shards = [ctx["only_shard"]] if ctx.get("only_shard") is not None else list(range(nshards))
+    shards = [s for s in shards if s < nshards]
+    npriors = 0
+    jjobs = []
+    for s in shards:
+        xp = "%s.expanded.%d.bin" % (cbase, s)
+        npriors += _expand_hist_cases("%s.%d.bin" % (cbase, s), "%s.priors.%d.txt" % (obase, s), xp)
+        jjobs.append((xp, "%s.%d.bin" % (obase, s), died))
+    with ProcessPoolExecutor(max_workers=min(nshards, os.cpu_count() or 4)) as ex:
+        judged = list(ex.map(judge_shard, jjobs))
+    for s, (r, truncated) in zip(shards, judged):
+        for v in r["violations"]:
+            v["meta"] = {"stage": tag, "shard": s, "nshards": nshards,
+                         "cmd": "python: vf.oracles.c11.judge_shard on the passes of harness/c11.cc mode=hist (one pass per prior)"}
+        ncls = sum(v for k, v in r["classes"].items() if not k.startswith("prior:"))
+        r["classes"] = dict({k: v for k, v in r["classes"].items() if k.startswith("prior:")}, **{"results-judged-by-python": ncls})
+        r["samples"] = []
+        driver.merge(merged, r)
+    merged["counters"]["hist_case_records_per_pass"] = sum(nrecs)
+    merged["counters"]["hist_passes_judged"] = npriors
     merged["violations"].sort(key=lambda v: (v["key"], len(v.get("case", ""))))
     return merged
